@@ -19,7 +19,7 @@ claim("C16", "DESIGN.md 5 C16",
       "bounded exhaustive enumeration of inputs against a reference model (explicit choice-tree DFS on the real code)")
 
 claim("C17", "DESIGN.md 5 C17",
-      "Complete enumeration of the value domains: 2x256 audio levels, all 2^16 transport sequence numbers, all 2^24 playout-delay pairs plus the out-of-range alphabet, all 2^24 abs-send-time values (x5 settings of the ignored upper bits), AbsCaptureTime over 2x5^8 64-bit grid words against 12-13 values of the other field; every decoder with every input length nil,0..size+2 (0..18 for AbsCaptureTime) x 3 contents x 3 prior receiver states. Every case is compared bit for bit with the layout written from the specifications and decoded back into fresh and used receivers.",
+      "Complete enumeration of the value domains: 2x256 audio levels, all 2^16 transport sequence numbers, all 2^24 playout-delay pairs plus the out-of-range alphabet, all 2^24 abs-send-time values (x5 settings of the ignored upper bits), AbsCaptureTime over 2x5^8 64-bit grid words against 12-13 values of the other field; every decoder with every input length nil,0..size+2 (0..18 for AbsCaptureTime) x 3 contents x 5 prior receiver states (incl. the current input with one byte inverted); AbsCaptureTime sweeps decode into receivers that last held a value agreeing in one field. Every case is compared bit for bit with the layout written from the specifications and decoded back into fresh and used receivers.",
       "64-bit AbsCaptureTime fields are a grid (8-byte strings over {00,01,7F,80,FF}), not the full domain.",
       "complete-domain enumeration against a bit-level reference encoder (explicit choice-tree DFS on the real code)")
 
